@@ -8,12 +8,16 @@ import (
 	"hash/fnv"
 	"io"
 	"net/http"
+	neturl "net/url"
 	"sync"
 	"time"
 
+	spb "google.golang.org/genproto/googleapis/rpc/status"
 	"google.golang.org/grpc"
 	"google.golang.org/grpc/codes"
 	"google.golang.org/grpc/status"
+	"google.golang.org/protobuf/encoding/protojson"
+	"google.golang.org/protobuf/proto"
 	"google.golang.org/protobuf/reflect/protoreflect"
 
 	"verif/internal/mon"
@@ -34,10 +38,22 @@ type BodyCase struct {
 	Framing string `json:"framing"` // content-length | chunked (HTTP/1.1), h2c
 	Front   string `json:"front"`   // small (chunk limit 100) | default
 	Chunk   int    `json:"chunk"`   // download: bytes per HttpBody message sent by the back-end
+	// CT is the media type of the transfer (upload: request Content-Type, ""
+	// none; download: content_type the back-end sets). Unary selects the
+	// unary HttpBody-bound method for uploads. Accept is the request's
+	// Accept header. Fail makes the back-end fail the upload (after the
+	// half-close / before the response) with that code, message class and
+	// details.
+	CT     string `json:"content_type"`
+	Unary  bool   `json:"unary,omitempty"`
+	Accept string `json:"accept,omitempty"`
+	Fail   int32  `json:"fail,omitempty"`
+	MsgC   string `json:"msg_class,omitempty"`
+	Det    int    `json:"det,omitempty"`
 }
 
 func (c BodyCase) String() string {
-	return fmt.Sprintf("%s %d bytes %s front=%s chunk=%d", c.Kind, c.Size, c.Framing, c.Front, c.Chunk)
+	return fmt.Sprintf("%s %d bytes %s front=%s chunk=%d content-type=%q unary=%v accept=%q fail=%d/%s/%d", c.Kind, c.Size, c.Framing, c.Front, c.Chunk, c.CT, c.Unary, c.Accept, c.Fail, c.MsgC, c.Det)
 }
 
 // sizeClass places the size relative to the chunk boundaries.
@@ -59,6 +75,28 @@ func (c BodyCase) sizeClass() string {
 }
 
 func bodyBytes(size, salt int) []byte { return sizedPayload(size, salt) }
+
+// payloadFor is the body of a transfer: JSON-looking text (objects, white
+// space, a trailing newline) for the JSON media type and for none, the byte
+// pattern otherwise.
+func payloadFor(ct string, size, salt int) []byte {
+	if ct != "application/json" && ct != "" {
+		return bodyBytes(size, salt)
+	}
+	var b []byte
+	for i := 0; len(b) < size; i++ {
+		b = append(b, fmt.Sprintf("{\"n\":%d,\"s\":\"}{\"} \n", salt+i)...)
+	}
+	b = b[:size]
+	if size > 2 {
+		b[size-2], b[size-1] = ' ', '\n'
+	}
+	return b
+}
+
+func hasCodec(ct string) bool {
+	return ct == "application/json" || ct == "application/protobuf" || ct == "application/octet-stream"
+}
 
 func hashOf(b []byte) uint32 {
 	h := fnv.New32a()
@@ -131,6 +169,11 @@ func (b *Scripted) upload(md protoreflect.MethodDescriptor, ss grpc.ServerStream
 		err := ss.RecvMsg(m)
 		if err == io.EOF {
 			finish(true, "")
+			if _, _, plan := customMD(ss.Context()); plan != "" {
+				if ferr := finalErr(parsePlan(plan)); ferr != nil {
+					return ferr // the back-end fails the call after the half-close
+				}
+			}
 			out := vschema.NewMsg(md.Output())
 			out.ProtoReflect().Set(md.Output().Fields().ByName("n"), protoreflect.ValueOfInt64(int64(total)))
 			out.ProtoReflect().Set(md.Output().Fields().ByName("tag"), protoreflect.ValueOfString(b.Tag))
@@ -158,6 +201,29 @@ func (b *Scripted) upload(md protoreflect.MethodDescriptor, ss grpc.ServerStream
 	}
 }
 
+// uploadUnary implements UploadU(vf.Upload) vf.Rsp.
+func (b *Scripted) uploadUnary(ctx context.Context, md protoreflect.MethodDescriptor, in proto.Message) (proto.Message, error) {
+	r := in.ProtoReflect()
+	fs := r.Descriptor().Fields()
+	rec := b.Uploads.get(r.Get(fs.ByName("name")).String())
+	file := r.Get(fs.ByName("file")).Message()
+	ffs := file.Descriptor().Fields()
+	data := file.Get(ffs.ByName("data")).Bytes()
+	rec.mu.Lock()
+	rec.Total, rec.Hash, rec.Msgs, rec.CT, rec.EOF, rec.Finished = len(data), hashOf(data), 1, file.Get(ffs.ByName("content_type")).String(), true, true
+	rec.mu.Unlock()
+	close(rec.done)
+	if _, _, plan := customMD(ctx); plan != "" {
+		if ferr := finalErr(parsePlan(plan)); ferr != nil {
+			return nil, ferr
+		}
+	}
+	out := vschema.NewMsg(md.Output())
+	out.ProtoReflect().Set(md.Output().Fields().ByName("n"), protoreflect.ValueOfInt64(int64(len(data))))
+	out.ProtoReflect().Set(md.Output().Fields().ByName("tag"), protoreflect.ValueOfString(b.Tag))
+	return out, nil
+}
+
 // download implements Download(vf.Req) stream google.api.HttpBody: req.n
 // bytes in messages of req.l bytes, name (salt of the pattern) in req.a.
 func (b *Scripted) download(md protoreflect.MethodDescriptor, ss grpc.ServerStream) error {
@@ -170,16 +236,20 @@ func (b *Scripted) download(md protoreflect.MethodDescriptor, ss grpc.ServerStre
 	size := int(r.Get(fs.ByName("n")).Int())
 	chunk := int(r.Get(fs.ByName("l")).Int())
 	salt := int(r.Get(fs.ByName("u")).Uint())
+	ct := r.Get(fs.ByName("b")).String()
+	if ct == "" {
+		ct = "application/x-vf-bytes"
+	}
 	if chunk <= 0 {
 		return status.Error(codes.InvalidArgument, "chunk")
 	}
-	data := bodyBytes(size, salt)
+	data := payloadFor(ct, size, salt)
 	for off := 0; off < len(data) || off == 0; off += chunk {
 		end := min(off+chunk, len(data))
 		out := vschema.NewMsg(md.Output())
 		o := out.ProtoReflect()
 		ofs := o.Descriptor().Fields()
-		o.Set(ofs.ByName("content_type"), protoreflect.ValueOfString("application/x-vf-bytes"))
+		o.Set(ofs.ByName("content_type"), protoreflect.ValueOfString(ct))
 		o.Set(ofs.ByName("data"), protoreflect.ValueOfBytes(data[off:end]))
 		if err := ss.SendMsg(out); err != nil {
 			return err
@@ -209,21 +279,47 @@ func (e *Env) execBody(c BodyCase, id string) (viol [][2]string, incon string) {
 	}
 	salt := c.Size*7 + len(id)
 	if c.Kind == "upload" {
-		data := bodyBytes(c.Size, salt)
+		data := payloadFor(c.CT, c.Size, salt)
 		var body io.Reader = bytes.NewReader(data)
 		if c.Framing == "chunked" {
 			body = noLen{bytes.NewReader(data)}
 		}
-		req, err := http.NewRequestWithContext(ctx, "POST", base+"/px/upload/"+id, body)
+		path := "/px/upload/"
+		if c.Unary {
+			path = "/px/uploadu/"
+		}
+		req, err := http.NewRequestWithContext(ctx, "POST", base+path+id, body)
 		if err != nil {
 			return nil, err.Error()
 		}
-		req.Header.Set("Content-Type", "application/x-vf-bytes")
-		req.Header.Set("Accept", "application/json")
+		if c.CT != "" {
+			req.Header.Set("Content-Type", c.CT)
+		}
+		switch {
+		case c.Accept != "":
+			req.Header.Set("Accept", c.Accept)
+		case c.Fail == 0:
+			// The reply of a successful upload is asked for in JSON: without
+			// Accept larking answers in the request's media type, which for
+			// a foreign type has no codec (not the proxy's business).
+			req.Header.Set("Accept", "application/json")
+		}
+		var want *planWire
+		if c.Fail != 0 {
+			want = &planWire{Code: c.Fail, Msg: msgOf(c.MsgC, c.Fail), Det: c.Det, BigRep: -1}
+			pj, _ := json.Marshal(want)
+			req.Header.Set("X-Vf-Plan-Bin", encodeBin(pj))
+		}
 		resp, err := hc.Do(req)
 		if err != nil {
 			if ctx.Err() != nil {
 				add("hang", "upload did not complete within %s: %v", CallTimeout, err)
+				return viol, ""
+			}
+			if want != nil {
+				// the back-end answers with a status: a connection that ends
+				// without any response is not that status
+				add("no-response", "the back-end fails the upload with %s (%q); the HTTP client got no response at all: %v", codes.Code(want.Code), want.Msg, err)
 				return viol, ""
 			}
 			return nil, "upload request failed: " + err.Error()
@@ -249,8 +345,34 @@ func (e *Env) execBody(c BodyCase, id string) (viol [][2]string, incon string) {
 		if !rec.EOF {
 			add("backend-half-close", "the back-end did not see the end of the upload (recv error %q) after %d bytes; client got HTTP %d", rec.RecvErr, rec.Total, resp.StatusCode)
 		}
-		if rec.CT != "application/x-vf-bytes" {
-			add("content-type", "content type at the back-end %q", rec.CT)
+		if c.CT != "" && rec.CT != c.CT {
+			add("content-type", "content type at the back-end %q, uploaded as %q", rec.CT, c.CT)
+		}
+		if want != nil {
+			// failing back-end: the HTTP client has to get the status a direct
+			// caller gets (code via the documented table, message, details)
+			okStatus := false
+			for _, w := range expectedHTTP(want.Code) {
+				okStatus = okStatus || w == resp.StatusCode
+			}
+			if !okStatus {
+				add("http-status", "HTTP %d for back-end code %d (documented mapping %v); body %.120q", resp.StatusCode, want.Code, expectedHTTP(want.Code), rb)
+			}
+			st := &spb.Status{}
+			var derr error
+			switch rct := resp.Header.Get("Content-Type"); rct {
+			case "application/protobuf", "application/octet-stream":
+				derr = proto.Unmarshal(rb, st)
+			default:
+				derr = protojson.Unmarshal(rb, st)
+			}
+			wst, _ := status.FromError(finalErr(want))
+			if derr != nil {
+				add("status-body", "error body (%s) is not a google.rpc.Status: %v (%.120q)", resp.Header.Get("Content-Type"), derr, rb)
+			} else if st.Code != want.Code || st.Message != want.Msg || fmt.Sprint(detailStrings(st)) != fmt.Sprint(detailStrings(wst.Proto())) {
+				add("status-body", "status at the HTTP client: code %d %q details %v; the back-end failed with %d %q details %v", st.Code, st.Message, detailStrings(st), want.Code, want.Msg, detailStrings(wst.Proto()))
+			}
+			return viol, ""
 		}
 		if resp.StatusCode != 200 {
 			add("http-status", "HTTP %d %.160q for an upload the back-end answers OK", resp.StatusCode, rb)
@@ -266,7 +388,11 @@ func (e *Env) execBody(c BodyCase, id string) (viol [][2]string, incon string) {
 		return viol, ""
 	}
 	// download
-	url := fmt.Sprintf("%s/px/download/%s?n=%d&l=%d&u=%d", base, id, c.Size, c.Chunk, salt)
+	dct := c.CT
+	if dct == "" {
+		dct = "application/x-vf-bytes"
+	}
+	url := fmt.Sprintf("%s/px/download/%s?n=%d&l=%d&u=%d&b=%s", base, id, c.Size, c.Chunk, salt, neturl.QueryEscape(dct))
 	req, err := http.NewRequestWithContext(ctx, "GET", url, nil)
 	if err != nil {
 		return nil, err.Error()
@@ -281,7 +407,7 @@ func (e *Env) execBody(c BodyCase, id string) (viol [][2]string, incon string) {
 	}
 	rb, rerr := io.ReadAll(resp.Body)
 	resp.Body.Close()
-	want := bodyBytes(c.Size, salt)
+	want := payloadFor(dct, c.Size, salt)
 	if resp.StatusCode != 200 {
 		add("http-status", "HTTP %d %.160q for a download the back-end serves", resp.StatusCode, rb)
 		return viol, ""
@@ -293,8 +419,8 @@ func (e *Env) execBody(c BodyCase, id string) (viol [][2]string, incon string) {
 	if !bytes.Equal(rb, want) {
 		add("bytes-at-client", "the back-end sent %d bytes (hash %08x) in messages of %d; the client received %d bytes (hash %08x)", len(want), hashOf(want), c.Chunk, len(rb), hashOf(rb))
 	}
-	if ct := resp.Header.Get("Content-Type"); ct != "application/x-vf-bytes" {
-		add("content-type", "Content-Type %q, the back-end sent application/x-vf-bytes", ct)
+	if ct := resp.Header.Get("Content-Type"); ct != dct {
+		add("content-type", "Content-Type %q, the back-end sent %q", ct, dct)
 	}
 	return viol, ""
 }
@@ -314,10 +440,50 @@ func bodyCases(thorough bool) []BodyCase {
 	}
 	for _, f := range []string{"content-length", "chunked", "h2c"} {
 		for _, s := range sizes {
-			out = append(out, BodyCase{Kind: "upload", Size: s, Framing: f, Front: "small"})
+			out = append(out, BodyCase{Kind: "upload", Size: s, Framing: f, Front: "small", CT: "application/x-vf-bytes"})
 		}
 		for _, s := range []int{1, 1000, 70000} {
-			out = append(out, BodyCase{Kind: "upload", Size: s, Framing: f, Front: "default"})
+			out = append(out, BodyCase{Kind: "upload", Size: s, Framing: f, Front: "default", CT: "application/x-vf-bytes"})
+		}
+	}
+	// media types: with a registered codec next to foreign ones and none
+	uploadTypes := []string{"application/octet-stream", "application/protobuf", "application/json", "", "image/jpeg", "text/csv"}
+	for _, ct := range uploadTypes {
+		for _, f := range []string{"content-length", "chunked", "h2c"} {
+			for _, s := range []int{60, 250, 317} {
+				out = append(out, BodyCase{Kind: "upload", Size: s, Framing: f, Front: "small", CT: ct})
+			}
+			out = append(out, BodyCase{Kind: "upload", Size: 90, Framing: f, Front: "small", CT: ct, Unary: true})
+			out = append(out, BodyCase{Kind: "upload", Size: 5000, Framing: f, Front: "default", CT: ct, Unary: true})
+		}
+	}
+	for _, ct := range []string{"application/octet-stream", "application/protobuf", "application/json", "image/jpeg"} {
+		for _, f := range []string{"content-length", "h2c"} {
+			for _, ch := range []int{64, 1000} {
+				out = append(out, BodyCase{Kind: "download", Size: 250, Framing: f, Front: "default", Chunk: ch, CT: ct},
+					BodyCase{Kind: "download", Size: 3000, Framing: f, Front: "small", Chunk: ch, CT: ct})
+			}
+		}
+	}
+	// failing back-end x request media types without a codec (and one with) x Accept
+	codesL := []int32{7, 8}
+	if thorough {
+		codesL = []int32{1, 2, 3, 4, 5, 6, 7, 8, 9, 10, 11, 12, 13, 14, 15, 16}
+	}
+	k := 0
+	for _, ct := range []string{"image/jpeg", "text/csv", "application/zip", "application/x-vf-bytes", "application/json"} {
+		for _, acc := range []string{"", "*/*", "application/json"} {
+			for _, code := range codesL {
+				for _, un := range []bool{true, false} {
+					k++
+					size, front := 90, "small"
+					if !un {
+						size = 250
+					}
+					out = append(out, BodyCase{Kind: "upload", Size: size, Framing: []string{"content-length", "h2c", "chunked"}[k%3], Front: front, CT: ct, Unary: un,
+						Accept: acc, Fail: code, MsgC: msgClasses[k%len(msgClasses)], Det: k % 3})
+				}
+			}
 		}
 	}
 	for _, f := range []string{"content-length", "h2c"} {
@@ -365,9 +531,22 @@ func reportBody(r *mon.Run, e *Env, c BodyCase, id string) {
 	}
 	r.Count("httpbody_transfers", 1)
 	r.Count("httpbody_bytes_checked", c.Size)
-	r.Distinct(fmt.Sprintf("httpbody/%s/%s/%s/%s", c.Kind, c.Framing, c.Front, c.sizeClass()))
+	r.Distinct(fmt.Sprintf("httpbody/%s/%s/%s/%s/ct=%s/unary=%v/accept=%s/fail=%v", c.Kind, c.Framing, c.Front, c.sizeClass(), c.CT, c.Unary, c.Accept, c.Fail != 0))
 	for _, v := range viol {
-		key := fmt.Sprintf("http/%s:%s:%s,%s,front=%s", c.Kind, v[0], c.sizeClass(), c.Framing, c.Front)
+		kind := c.Kind
+		if c.Unary {
+			kind += "-unary"
+		}
+		cls := "foreign-type"
+		if hasCodec(c.CT) {
+			cls = "type-with-codec"
+		} else if c.CT == "" {
+			cls = "no-type"
+		}
+		if c.Fail != 0 {
+			cls += fmt.Sprintf(",backend-fails,accept=%q", c.Accept)
+		}
+		key := fmt.Sprintf("http/%s:%s:%s,%s,%s,front=%s", kind, v[0], c.sizeClass(), cls, c.Framing, c.Front)
 		r.Violate(key, v[1]+" ["+c.String()+"]", map[string]any{"body_case": c})
 	}
 }
